@@ -3,7 +3,7 @@
 (* Trace validation of one recorded ABC session (get_posterior_sample,     *)
 (* optionally continue_posterior_sample) against Abc.  Costs and           *)
 (* tolerances are dense ranks within the session.  Events:                 *)
-(*   Start / Continue   tol                                                *)
+(*   Start / Restart (tol, n) / Continue (tol)                             *)
 (*   Accept   cost, prior, w, recomputed                                    *)
 (*            one particle returned by the generation step: its stored      *)
 (*            distance (rank), whether its prior density is positive        *)
@@ -30,25 +30,26 @@ TraceMode == Tr.mode
 IsEvent(name) == l <= NEv /\ Ev.ev = name /\ l' = l + 1
 
 TraceInit == Init /\ l = 1
-TrStart    == IsEvent("Start") /\ Start(Ev.tol)
+TrStart    == IsEvent("Start") /\ Start(Ev.tol, Ev.n)
+TrRestart  == IsEvent("Restart") /\ Restart(Ev.tol, Ev.n)
 TrContinue == IsEvent("Continue") /\ Continue(Ev.tol)
 TrAccept   == /\ IsEvent("Accept")
-              /\ gen > 0 /\ Len(parts) < N
+              /\ gen > 0 /\ Len(parts) < n
               /\ Accepts(Ev.cost, Ev.prior)               \* the specification accepts this trial too
               /\ Ev.w = "ok" /\ Ev.recomputed = "ok"
               /\ parts' = Append(parts, [cost |-> Ev.cost, prior |-> Ev.prior, tol |-> tol, gen |-> gen])
               /\ trials' = trials
-              /\ UNCHANGED <<gen, tol, post, tols, runs>>
+              /\ UNCHANGED <<gen, tol, post, tols, runs, n>>
 TrEndGen   == /\ IsEvent("EndGen") /\ EndGeneration
               /\ IF Ev.next >= 0 THEN gen' > 0 /\ tol' = Ev.next ELSE gen' = 0
 TrFinal    == /\ IsEvent("Final") /\ gen = 0 /\ runs > 0
-              /\ Len(Ev.parts) = N /\ Len(post) = N
-              /\ \A i \in 1..N : /\ Ev.parts[i].cost = post[i].cost
+              /\ Len(Ev.parts) = n /\ Len(post) = n
+              /\ \A i \in 1..n : /\ Ev.parts[i].cost = post[i].cost
                                  /\ Ev.parts[i].cost < tol
                                  /\ Ev.parts[i].prior /\ Ev.parts[i].w = "ok" /\ Ev.parts[i].recomputed = "ok"
               /\ Ev.finaltol = tol
               /\ UNCHANGED avars
-TraceNext == TrStart \/ TrContinue \/ TrAccept \/ TrEndGen \/ TrFinal
+TraceNext == TrStart \/ TrRestart \/ TrContinue \/ TrAccept \/ TrEndGen \/ TrFinal
 TraceSpec == TraceInit /\ [][TraceNext]_tvars
 Progress == PrintT(<<"AT", l, NEv + 1>>)
 =============================================================================
